@@ -705,6 +705,15 @@ class CallMixin:
                     s = st.copy()
                     vals[fname] = self.evs(default, s)
                 key, ft = self.field_decl(cname, fname)
+                fv0 = vals[fname]
+                if isinstance(ft, TDict) and isinstance(fv0.t, TConst) and fv0.const is not None and fv0.const.v == {}:
+                    # an empty dict literal stored into a dict-typed field
+                    fv0 = SV(ft, None, extra={
+                        "keys": z3.Empty(z3.SeqSort(sym.sort_of(ft.k))),
+                        "has": z3.K(sym.sort_of(ft.k), z3.BoolVal(False)),
+                        "val": sym.fresh(ft, "emptydict").extra["val"],
+                    })
+                    vals[fname] = fv0
                 try:
                     v = sym.coerce(self.reify(vals[fname]), ft)
                 except TypeError as err:
